@@ -32,7 +32,8 @@ CONSTANTS Bases,          \* subset of BaseNames
           AnisoBigFactors,\* the factors k for bodies with more faces
           AnisoPairs,     \* flip pairs of faces as well as single faces before a face is brought to the front (bodies with <= 8 faces)
           AnisoRewind,    \* also rewind the first face cyclically: all six ways to write the seed face (bodies with <= 8 faces)
-          AnisoDupFaces   \* flat bodies with at most this many faces are also explored as two disconnected parts
+          AnisoDupFaces,  \* flat bodies with at most this many faces are also explored as two disconnected parts
+          LifeMaxPre      \* object histories: at most this many uses/checks before reorient_faces() is called
 VARIABLES m, kind, base, n, last,
           st,             \* stretch of the concrete mesh: the real object has the vertices Stretch(m, st).v; m itself stays small
           fam             \* "std": the transformation palette;  "aniso": every face in turn as the first face, flat bodies
@@ -207,6 +208,13 @@ StepOK == [][
 \* (invariance of SelfIntersecting and of Outward-after-RefOrient under every step follows from KindTruth and RefOK, which
 \*  are evaluated in every reachable state: all closed variants have the value of their base)
 
+\* object histories "use, then normalise, then use": in the model every history of every flip pattern of the tetrahedron ends
+\* with outward faces of the same vertex sets; the set of histories is printed for the harness, which executes each one on
+\* real objects built with reorient_faces = skip
+ASSUME \A S \in SUBSET (1..4) : \A h \in LifeHistories(LifeMaxPre) :
+         LET o == ObjRun(Tetra.v, ObjInit(FlipFaces(Tetra, S).f), h, 1)
+         IN o.reoriented /\ Outward(Tetra.v, o.faces) /\ SameFaceSets(Tetra.f, o.faces)
+ASSUME PrintT(<<"HIST", LifeHistories(LifeMaxPre)>>)
 \* the observers used by the binding are printed once so that the harness reads them from the specification
 ASSUME \A b \in BaseNames : PrintT(<<"OBS", b, ObsIn(b), ObsOut(b)>>)
 =============================================================================
